@@ -337,6 +337,103 @@ def check_hooks(model, rep):
            f'Array no longer takes its operators from NDArrayOperatorsMixin (own definitions: {own}): operator and function forms can diverge', statement='operators-from-mixin')
 
 
+INEXACT = ('numpy.linalg.eig', 'numpy.linalg.eigh', 'numpy.linalg.det', 'numpy.linalg.inv')
+
+
+def check_composites(model, rep):
+    m, regs = registrations(model)
+    # R07.4: linear-algebra results are inexact (float or complex) whatever the operand kind
+    n = 0
+    for fn, names in regs:
+        if not any(nm in INEXACT for nm in names):
+            continue
+        for c in ast.walk(fn):
+            if isinstance(c, ast.Call) and src(c.func) == '_Wrapper':
+                dt = next((k.value for k in c.keywords if k.arg == 'dtype'), None)
+                if dt is None:
+                    continue
+                n += 1
+                t = src(dt).replace(' ', '')
+                ok = t in ('float', 'complex') or (isinstance(dt, ast.IfExp) and {src(dt.body), src(dt.orelse)} == {'float', 'complex'} and 'complex' in src(dt.test))
+                rep.ob('R07.4', f'function:__implementations__.{fn.name}', f'{m.relpath}:{c.lineno}', ok, f'{names[0]} announces an inexact element kind (`{src(dt)}`)' if ok else
+                       f'{names[0]} announces dtype `{src(dt)}`: for integer or boolean operands NumPy returns floating point, so the announced kind differs from what evaluation delivers', statement=f'inexact {fn.name}@{_ord(fn, c)}')
+    if n < 5:
+        raise AnalysisError(f'only {n} linear-algebra wrappers found')
+    # R07.5: implementations never modify what the caller passed in
+    mod = model.module('function')
+    nstore = 0
+    for f in model.functions.values():
+        if f.module is not mod or isinstance(f.node, ast.Lambda) or not (f.cls is None or f.cls.name == '__implementations__'):
+            continue   # user-facing functions and NumPy dispatch implementations only
+        pos, kwonly, va, kw = params(f.node)
+        pnames = set(pos) | set(kwonly)
+        alias = set(pnames) - {'self', 'cls'}
+        fresh = set()
+        for s_ in ast.walk(f.node):
+            if isinstance(s_, ast.Assign) and len(s_.targets) == 1 and isinstance(s_.targets[0], ast.Name) and isinstance(s_.value, ast.Call):
+                callee = src(s_.value.func)
+                args = {x.id for a in s_.value.args for x in ast.walk(a) if isinstance(x, ast.Name)}
+                tname = s_.targets[0].id
+                if callee in ('numpy.asarray', 'numpy.asanyarray', 'numpy.ascontiguousarray') and args & alias:
+                    alias.add(tname)
+                    fresh.discard(tname)
+                elif callee in ('numpy.array', 'numpy.copy', 'list', 'numpy.empty', 'numpy.zeros') or callee.endswith('.copy'):
+                    fresh.add(tname)
+                    alias.discard(tname)
+        for s_ in ast.walk(f.node):
+            tgt = None
+            if isinstance(s_, ast.AugAssign):
+                tgt = s_.target
+            elif isinstance(s_, ast.Assign):
+                tgt = s_.targets[0] if isinstance(s_.targets[0], ast.Subscript) else None
+            if tgt is None:
+                continue
+            base = tgt.value if isinstance(tgt, ast.Subscript) else None
+            if isinstance(base, ast.Name) and isinstance(tgt, ast.Subscript):
+                nstore += 1
+                bad = base.id in alias and base.id not in fresh
+                if bad:
+                    rep.ob('R07.5', f.key, f.where(s_), False, f'`{stmt_text(s_)[:70]}` writes into `{base.id}`, which is (a no-copy view of) an argument of the caller: the caller\'s array is modified and reusing it gives another result',
+                           statement=f'mutates {base.id}')
+    rep.ob('R07.5', 'function:__implementations__', mod.relpath + ':1', True, f'{nstore} in-place stores in function.py inspected: none targets caller-owned data', statement='no-argument-mutation')
+    # R07.6: slice normalisation follows Python's slice semantics in both layers
+    want_start = '0ifs.startisNoneelses.startifs.start>=0elses.start+n'
+    want_stop = 'nifs.stopisNoneelses.stopifs.stop>=0elses.stop+n'
+    for key in ('function:_takeslice', 'evaluable:_takeslice'):
+        f = model.func(key)
+        a = {src(s_.targets[0]): src(s_.value).replace(' ', '') for s_ in ast.walk(f.node) if isinstance(s_, ast.Assign) and src(s_.targets[0]) in ('start', 'stop')}
+        ok = a.get('start') == want_start and a.get('stop') == want_stop
+        rep.ob('R07.6', f.key, f.where(), ok, 'negative and missing slice bounds are normalised as Python does (None -> 0 / n, negative -> + n, 0 stays 0)' if ok else
+               f'{key} normalises slice bounds as start={a.get("start")}, stop={a.get("stop")}: not Python\'s slice semantics (e.g. an explicit stop 0 or start 0)', statement='slice-normalisation')
+
+
+def check_contractions(model, rep):
+    """R07.7: contractions realised as broadcasting product + sum must compare the contracted lengths first (sibling agreement dot/matmul)."""
+    m, regs = registrations(model)
+    by = {fn.name: fn for fn, _ in regs}
+    for name in ('dot', 'matmul'):
+        fn = by.get(name)
+        if fn is None:
+            raise AnalysisError(f'numpy.{name} implementation not found')
+        pos = [a.arg for a in fn.args.args]
+        guards = []
+        for s_ in ast.walk(fn):
+            if isinstance(s_, ast.If) and isinstance(s_.test, ast.Compare) and isinstance(s_.test.ops[0], ast.NotEq) and any(isinstance(b, ast.Raise) and 'ValueError' in src(b) for b in s_.body):
+                l, r = src(s_.test.left), src(s_.test.comparators[0])
+                if l == f'{pos[0]}.shape[-1]' and r.startswith(f'{pos[1]}.shape[') and '-2' in r:
+                    guards.append(s_)
+        ok = len(guards) == 1
+        rep.ob('R07.7', f'function:__implementations__.{name}', f'{m.relpath}:{fn.lineno}', ok, f'numpy.{name}: the contracted axis lengths are compared and a mismatch raises ValueError before the broadcasting product' if ok else
+               f'numpy.{name} multiplies and sums without comparing `{pos[0]}.shape[-1]` with the contracted axis of `{pos[1]}`: a contracted axis of length one is silently broadcast, where NumPy rejects the operands',
+               statement='contracted-lengths-checked')
+
+
+def _ord(fn, node):
+    calls = [c for c in ast.walk(fn) if isinstance(c, ast.Call) and src(c.func) == '_Wrapper']
+    calls.sort(key=lambda c: (c.lineno, c.col_offset))
+    return next(i for i, c in enumerate(calls) if c is node)
+
+
 def check_namespace_table(model, rep, oracle):
     ns = model.cls('expression_v2:Namespace')
     init = ns.members['__init__'].func
@@ -361,9 +458,15 @@ def run(model, rep, tier):
     rep.rule('R07.1', 'numpy.f -> implementation -> evaluable chain has the meaning NumPy documents for f')
     rep.rule('R07.2', 'result element-kind class as NumPy; domain restrictions')
     rep.rule('R07.3', 'dispatch hooks and operator delegation')
+    rep.rule('R07.4', 'linear-algebra wrappers announce an inexact element kind')
+    rep.rule('R07.5', 'implementations never write into caller-owned arrays')
+    rep.rule('R07.6', 'slice bounds are normalised with Python slice semantics in both layers')
+    rep.rule('R07.7', 'contractions compare the contracted lengths before the broadcasting product (dot/matmul agree)')
     rep.trusted_base.append('oracles/numpy_api.json (NumPy documented semantics)')
     check_chains(model, rep, oracle)
     check_hooks(model, rep)
+    check_composites(model, rep)
+    check_contractions(model, rep)
     check_namespace_table(model, rep, oracle)
     rep.require('R07.1', 55)
     rep.require('R07.2', 40)
